@@ -512,7 +512,47 @@ pub fn field_value(rng: &mut Rng, f: &Fld) -> BigUint {
         6 => (BigUint::from(1u32) << rng.usize_below(f.bits)) % p,
         7 => ((BigUint::from(1u32) << rng.usize_below(f.bits)) - 1u32) % p,
         8 => BigUint::from(rng.next_u64()),
+        9 => decimal_structured(rng) % p,
         _ => Fld::int_le(&rng.bytes(f.nbytes + 8)) % p,
+    }
+}
+
+/// Integers whose *decimal* expansion is structured: powers of ten, aligned all-zero groups of 9 / 18 / 19
+/// digits (the natural chunk sizes of limb-wise decimal conversion) below non-zero ones, repdigits.
+pub fn decimal_structured(rng: &mut Rng) -> BigUint {
+    let ten = BigUint::from(10u32);
+    let pow = |k: u32| ten.pow(k);
+    match rng.below(5) {
+        0 => pow(rng.below(77) as u32),
+        1 => pow(rng.below(77) as u32) - 1u32,
+        2 => {
+            // a * 10^(g*j) + b with b below one group: one or more all-zero groups in between
+            let g = *rng.pick(&[9u32, 18, 19, 20]);
+            let j = 1 + rng.below(3) as u32;
+            let a = BigUint::from(1 + rng.below(9));
+            let b = if rng.chance(1, 2) { BigUint::from(0u32) } else { BigUint::from(rng.next_u64() % 1_000_000_000) };
+            a * pow(g * j) + b
+        }
+        3 => {
+            // several groups, some of them zero
+            let g = *rng.pick(&[9u32, 18, 19]);
+            let mut acc = BigUint::from(0u32);
+            for i in 0..(76 / g) {
+                if rng.chance(1, 2) {
+                    acc += BigUint::from(1 + rng.next_u64() % 999_999_999) * pow(g * i);
+                }
+            }
+            acc + pow(g * (76 / g))
+        }
+        _ => {
+            let d = 1 + rng.below(9);
+            let n = 1 + rng.below(76);
+            let mut acc = BigUint::from(0u32);
+            for _ in 0..n {
+                acc = acc * 10u32 + d;
+            }
+            acc
+        }
     }
 }
 
